@@ -114,12 +114,14 @@ func runC10(c *Ctx) {
 			for i, call := range findCalls(hd, false, "(*internal/api.DeleteHandler)."+name) {
 				args := call.Common().Args
 				pred := args[len(args)-1]
-				fromReq := fieldSources(pred, 4)["DeleteRequest.Where"]
+				// the very field value, not an expression computed from it: search,
+				// count and rewrite must see the identical predicate text
+				fromReq := loadsField(pred, "DeleteRequest", "Where")
 				valid := validate != nil && callSucceededBefore(validate, call.(ssa.Instruction))
 				construct := fmt.Sprintf("handleDelete|%s#%d", name, i+1)
 				switch {
 				case !fromReq:
-					c.Bad("C10.SAME", construct, call.Pos(), "%s is not given the request's where clause", name)
+					c.Bad("C10.SAME", construct, call.Pos(), "%s is not given the request's where field itself (search, count and rewrite must evaluate the identical predicate text)", name)
 				case !valid:
 					c.Bad("C10.SAME", construct, call.Pos(), "%s runs without validateWhereClause having returned nil for the predicate", name)
 				default:
